@@ -29,6 +29,8 @@ RULE = ("state = interpreter process (JIT specialisation caches, module tables, 
         "case = one call inside a history (or one schedule in the interleaving spaces); non-trivial = the call is not the "
         "first of its history; distinct = digest of (history prefix window, result)")
 ASSUMPTIONS = [
+    "in the history spaces every array a call hands back is overwritten in place (7s) once its digest has been taken: a result "
+    "belongs to the caller, and a later call that hands out the same array again (a cache) then differs from its fresh-interpreter digest",
     "histories are covered by windows: every ordered pair of the full alphabet and every ordered triple of the core "
     "alphabet occur adjacently, inside long histories that start from non-initial states; depth-2 histories over the "
     "core alphabet are also run from the fresh state. Longer-range dependencies are only covered as far as the long "
@@ -93,6 +95,22 @@ class FreshRefs(Space):
                 out.sample({"letter": name, "fresh_digest": ref["digest"], "first_call_s": ref["first_call_s"]})
 
 
+def _overwrite_result(res):
+    """Overwrite, in place, every writeable NumPy array a call handed back (DataArray / Dataset / ndarray / tuple of them)."""
+    import xarray as xr
+    if isinstance(res, (tuple, list)):
+        for x in res:
+            _overwrite_result(x)
+        return
+    if isinstance(res, xr.Dataset):
+        for v in res.data_vars.values():
+            _overwrite_result(v)
+        return
+    a = res.data if isinstance(res, xr.DataArray) else res
+    if isinstance(a, np.ndarray) and a.flags.writeable and a.dtype.kind in "fiub":
+        a[...] = 1 if a.dtype.kind == "b" else 7
+
+
 class HistorySpace(Space):
     """phase 1: each case is one history (a list of letters) executed from the first call in a fresh interpreter."""
     phase = 1
@@ -120,7 +138,9 @@ class HistorySpace(Space):
             for pos, name in enumerate(hist):
                 ref = _fresh(self.tier, name)
                 try:
-                    d = self.letters_mod.result_digest(self.L[name][0]())
+                    res = self.L[name][0]()
+                    d = self.letters_mod.result_digest(res)
+                    _overwrite_result(res)      # a result belongs to the caller: whatever the caller does to it must not reach later calls
                 except Exception as e:
                     d = "EXC:%s" % type(e).__name__
                 v2 = self.state.vector()
